@@ -80,6 +80,20 @@ class PyInterp(Interp):
                         break
                 if not broke:
                     self.block(s.orelse, env, f)
+            elif isinstance(s, ast.Delete) and all(isinstance(t, ast.Subscript) for t in s.targets):
+                for t in s.targets:
+                    o = self.eval(t.value, env)
+                    if not isinstance(o, list):
+                        raise AnalysisError(f"{f.key}: `{src(s)}` is outside the fragment")
+                    try:
+                        if isinstance(t.slice, ast.Slice):
+                            lo = self.eval(t.slice.lower, env) if t.slice.lower is not None else None
+                            hi = self.eval(t.slice.upper, env) if t.slice.upper is not None else None
+                            del o[lo:hi]
+                        else:
+                            del o[self.eval(t.slice, env)]
+                    except (IndexError, TypeError) as e:
+                        raise Crash(f"`{src(s)}`: {e}")
             elif isinstance(s, ast.Break):
                 raise _Break()
             elif isinstance(s, ast.Continue):
@@ -166,6 +180,19 @@ class PyInterp(Interp):
             except AnalysisError:
                 pass
             return super().call(n, env)
+        if isinstance(f, ast.Name) and f.id == "enumerate" and 1 <= len(n.args) <= 2:
+            v = self.eval(n.args[0], env)
+            start = self.eval(n.args[1], env) if len(n.args) == 2 else 0
+            if isinstance(v, (list, tuple, range)) and isinstance(start, int):
+                return tuple(enumerate(list(v), start))
+        if isinstance(f, ast.Name) and f.id in ("reversed", "sorted") and len(n.args) == 1 and not n.keywords:
+            v = self.eval(n.args[0], env)
+            if isinstance(v, (list, tuple, range)) and (f.id == "reversed" or all(isinstance(x, int) for x in v)):
+                return list(reversed(list(v))) if f.id == "reversed" else sorted(v)
+        if isinstance(f, ast.Name) and f.id == "range" and 1 <= len(n.args) <= 3:
+            a = [self.eval(x, env) for x in n.args]
+            if all(isinstance(x, int) and not isinstance(x, bool) for x in a):
+                return range(*a)
         if isinstance(f, ast.Name) and f.id in ("list", "tuple") and len(n.args) <= 1:
             v = self.eval(n.args[0], env) if n.args else ()
             if isinstance(v, (list, tuple, frozenset, range)):
